@@ -393,6 +393,19 @@ pub fn builder_program(rep: &mut Report, mode: &str, rng: &mut Rng, check_paths:
             if has(&model, MI) || has(&model, MI256) { if let Err(e) = msg.validate_integrity(&creds) { rep.violate("C11:sealed-validates", format!("built message fails validate_integrity: {:?}", e), wit.clone()); } }
         }
     }
+    // ---- C03 also for the in-place serialisation path: a reused (non-zeroed) destination must parse back identically
+    {
+        let mut dirty = vec![0xEEu8; built.len() + 3];
+        match b.write_into(&mut dirty) {
+            Ok(k) if k == built.len() => {
+                match Message::from_bytes(&dirty[..k]) {
+                    Ok(m2) => { let got: Vec<(u16, Vec<u8>)> = m2.iter_attributes().map(|a| (a.get_type().value(), a.value.to_vec())).collect(); if got != model || dirty[..k] != built[..] { rep.violate("C03:write_into-reused-buffer", format!("write_into a reused buffer gives {} which differs from build() {}", hex_short(&dirty[..k]), hex_short(&built)), wit.clone()); } }
+                    Err(e) => rep.violate("C03:write_into-reused-buffer", format!("the message written into a reused (non-zeroed) buffer is refused by the parser: {:?}; bytes {} vs build() {}", e, hex_short(&dirty[..k]), hex_short(&built)), wit.clone()),
+                }
+            }
+            o => rep.violate("C03:length", format!("write_into(len+3) = {:?} but build() has {} bytes", o, built.len()), wit.clone()),
+        }
+    }
     // ---- all serialisation paths agree (C12)
     if check_paths {
         let n = built.len();
